@@ -7,7 +7,8 @@
 - then runs the named checks against the change (scratch copy, SYMX_REPO)"""
 import json, os, shutil, subprocess, sys, tempfile
 cid, k, needs = sys.argv[1], sys.argv[2], sys.argv[3]
-checks = sys.argv[4:] or [cid]
+prop = cid[:3]
+checks = sys.argv[4:] or [prop]
 src = '/tmp/seed/%s_out' % cid
 diff = os.path.join(src, 'mut%s.diff' % k)
 demo = os.path.join(src, 'mut%s_demo.py' % k)
@@ -38,11 +39,11 @@ if not ok:
 ev = subprocess.run(['/verif/tools_seed_eval.sh', diff] + checks, capture_output=True, text=True)
 print(ev.stdout)
 caught = [c for c in checks if ('== %s rc=1' % c) in ev.stdout]
-out = '/verif/seeded/%s-%s' % (cid, k)
+out = '/verif/seeded/%s-%s%s' % (prop, cid[3:], k)
 os.makedirs(out, exist_ok=True)
 shutil.copy(diff, os.path.join(out, 'patch.diff'))
 shutil.copy(demo, os.path.join(out, 'demo.py'))
-meta = {'property': cid, 'needs_to_manifest': needs,
+meta = {'property': prop, 'needs_to_manifest': needs,
         'agent_notes': open(notes).read() if os.path.exists(notes) else '',
         'confirmed': res,
         'ran': ['git worktree add (scratch) + git apply patch.diff', '/venv/bin/python -m pytest -q -p no:cacheprovider (278 passed)',
